@@ -72,3 +72,11 @@ Theorem c11_example : wf_log txn_log /\ index_wf txn_log txn_index /\ index_comp
   aborted_txns [] txn_log = txn_index.
 Proof. exact txn_example. Qed.
 Print Assumptions c11_example.
+
+(* ... also when the head of the log was deleted in the middle of an aborted transaction (non-zero LogStartOffset):
+   the index keeps the original first offset 20 < log start 30 ([index_wf] allows it), the surviving batch [30..31]
+   is not visible.  The model's block carries no LogStartOffset: parse_response cannot depend on it. *)
+Theorem c11_example_log_start : wf_log cut_log /\ index_wf cut_log cut_index /\ index_complete cut_log cut_index /\
+  map cm_offset (visible (Build_cfg 1048576 0 true) cut_log) = [32; 34] /\ aborted_txns [(1, 20)] cut_log = cut_index.
+Proof. exact cut_example. Qed.
+Print Assumptions c11_example_log_start.
